@@ -181,3 +181,205 @@ def compare(got, want):
     if got['count'] != want['count']:
         return f'counts {got["count"]} statements instead of {want["count"]}'
     return None
+
+
+# ------------------------------------------------------------------------------------------------ include statements
+class IncludeInterp(StepInterp):
+    """adds oracles for the host callbacks and repository functions the include branch uses:
+    fetchFn / urlFn / logFn (opaque host functions in the options), parse_script, lint_script, url_file_relative"""
+
+    def __init__(self, repo, mod, rule='E6s'):
+        super().__init__(repo, mod, rule)
+        self.max_depth = 12
+        self.fetch = {}        # resolved location (repr) -> 'ok' | 'none' | 'raise'
+        self.scripts = {}      # resolved location (repr) -> python model | 'syntax-error'
+        self.warnings = {}     # resolved location (repr) -> list of warning strings
+        self.oracles['parse_script'] = self._parse
+        self.oracles['lint_script'] = self._lint
+        self.oracles['url_file_relative'] = self._relative
+
+    def _relative(self, args, node):
+        self.events.append(('relative', args[0], args[1]))
+        return Sym('rel', args[0], args[1])
+
+    def _parse(self, args, node):
+        t = args[0]
+        if not (isinstance(t, Sym) and t.kind == 'text'):
+            raise Unrecognised(self.rule, f'parse_script called with {t!r}, not with the fetched text', self.mod.rel)
+        key = repr(t.args[0])
+        self.events.append(('parse', t.args[0]))
+        model = self.scripts.get(key, {'statements': [{'expr': {'expr': Sym('e', key + '#0')}}]})
+        if model == 'syntax-error':
+            raise RaiseSig('BareScriptParserError', (Sym('perr', key), Sym('pline', key), Sym('pcol', key), Sym('plineno', key)), node)
+        a = build(model)
+        self.parsed[id(a)] = key
+        self.keep.append(a)
+        return a
+
+    def _lint(self, args, node):
+        key = self.parsed.get(id(args[0]), '?')
+        self.events.append(('lint', key))
+        return AList(list(self.warnings.get(key, [])))
+
+    def call_value_hook(self, fn, args, e):
+        if isinstance(fn, Sym) and fn.kind == 'hostfn':
+            tag = fn.args[0]
+            if tag == 'fetch':
+                req = args[0] if args else None
+                u = req.d.get('url') if isinstance(req, ADict) else req
+                self.events.append(('fetch', u, sorted(req.d) if isinstance(req, ADict) else None))
+                b = self.fetch.get(repr(u), 'ok')
+                if b == 'ok':
+                    return Sym('text', u)
+                if b == 'none':
+                    return None
+                raise RaiseSig('OSError', (Sym('fetch-failed'),), e)
+            if tag == 'urlfn':
+                self.events.append(('urlfn', args[0] if args else None))
+                return Sym('resolved', args[0] if args else None)
+            if tag == 'log':
+                self.events.append(('log', args[0] if args else None))
+                return None
+        return NotImplemented
+
+    def _evaluate(self, args, node):
+        v = super()._evaluate(args, node)
+        opts = args[1] if len(args) > 1 else None
+        info = None
+        if isinstance(opts, ADict):
+            info = (opts.d.get('urlFn'), opts.d.get('globals') is self.globals_obj, opts is self.options)
+        self.events[-1] = self.events[-1] + (info,)
+        return v
+
+    def run_include(self, func, model, opts_extra, limit=50):
+        self.parsed, self.keep = {}, []
+        locals_ = self.prepare('global', limit)
+        self.options.d.update(opts_extra)
+        self.schedule = [True]
+        try:
+            val = self.call_function(func, [build(model), self.options, locals_], func)
+            outcome = ('return', val)
+        except RaiseSig as sig:
+            outcome = ('raise', sig.cls, sig.args_)
+        return outcome, list(self.events), self.options.d.get('statementCount')
+
+
+def include_reference(model, opts, fetch, scripts, warnings, limit=50):
+    """documented include semantics over the same abstraction -> (outcome, events, count)"""
+    events = []
+    state = {'count': 0}
+
+    class Stop(Exception):
+        def __init__(self, outcome):
+            self.outcome = outcome
+
+    def run(statements, url_fn, top):
+        for st in statements:
+            state['count'] += 1
+            if limit > 0 and state['count'] > limit:
+                raise Stop(('raise', 'BareScriptRuntimeError', 'Exceeded'))
+            (k, v), = st.items()
+            if k == 'expr':
+                events.append(('eval', v['expr'].args[0], url_fn))
+            elif k == 'include':
+                for inc in v['includes']:
+                    url = inc['url']
+                    if inc.get('system') and opts.get('systemPrefix') is not None:
+                        events.append(('relative', opts['systemPrefix'], url))
+                        U = Sym('rel', opts['systemPrefix'], url)
+                    elif url_fn is not None:
+                        if url_fn[0] == 'host':
+                            events.append(('urlfn', url))
+                            U = Sym('resolved', url)
+                        else:
+                            events.append(('relative', url_fn[1], url))
+                            U = Sym('rel', url_fn[1], url)
+                    else:
+                        U = url
+                    text_ok = False
+                    if opts.get('fetchFn') is not None:
+                        events.append(('fetch', U))
+                        text_ok = fetch.get(repr(U), 'ok') == 'ok'
+                    if not text_ok:
+                        raise Stop(('raise', 'BareScriptRuntimeError', ('Include', U)))
+                    events.append(('parse', U))
+                    sc = scripts.get(repr(U), {'statements': [{'expr': {'expr': Sym('e', repr(U) + '#0')}}]})
+                    if sc == 'syntax-error':
+                        raise Stop(('raise', 'BareScriptParserError', ('Included', U)))
+                    if opts.get('logFn') is not None and opts.get('debug'):
+                        events.append(('lint', repr(U)))
+                        w = warnings.get(repr(U), [])
+                        for _ in range((1 + len(w)) if w else 0):
+                            events.append(('log',))
+                    run(sc['statements'], ('rel', U), False)
+    try:
+        run(model, ('host',) if opts.get('urlFn') is not None else None, True)
+    except Stop as s:
+        return s.outcome, events, state['count']
+    return ('return', None), events, state['count']
+
+
+def _mentions(v, U):
+    """does the (possibly symbolic) message value mention the resolved location U?"""
+    if v == U or (isinstance(v, str) and isinstance(U, str) and U in v):
+        return True
+    if isinstance(v, Sym):
+        return any(_mentions(a, U) for a in v.args)
+    if isinstance(v, tuple):
+        return any(_mentions(a, U) for a in v)
+    return False
+
+
+def include_compare(got, want):
+    (go, gev, gc), (wo, wev, wc) = got, want
+    # events
+    norm_g = []
+    for e in gev:
+        if e[0] == 'eval':
+            info = e[-1]
+            uf = info[0] if info else None
+            if isinstance(uf, tuple) and uf and uf[0] == 'partial' and isinstance(uf[1], tuple) and uf[1][0] == 'extern' and uf[1][2] == 'url_file_relative' and len(uf[2]) == 1:
+                ufn = ('rel', uf[2][0])
+            elif isinstance(uf, Sym) and uf.kind == 'hostfn':
+                ufn = ('host',)
+            elif uf is None:
+                ufn = None
+            else:
+                ufn = ('other', repr(uf))
+            norm_g.append(('eval', e[1], ufn))
+            if e[2] != 'globals':
+                return f'evaluates {e[1]} of an included script with a locals frame (included scripts run in global scope)'
+            if info and not info[1]:
+                return f'evaluates {e[1]} under options whose globals object is not the run\'s globals'
+            if info and info[2] and ufn is not None and ufn[0] == 'rel':
+                return 'stores the re-based urlFn into the includer\'s own options object'
+        elif e[0] == 'fetch':
+            if e[2] != ['url']:
+                return f'calls fetchFn with a request whose members are {e[2]} (must be {{url}})'
+            norm_g.append(('fetch', e[1]))
+        elif e[0] == 'log':
+            norm_g.append(('log',))
+        elif e[0] == 'lint':
+            norm_g.append(('lint', e[1]))
+        else:
+            norm_g.append(tuple(e[:3]))
+    if norm_g != wev:
+        for i, (a, b) in enumerate(zip(norm_g + [None] * len(wev), wev + [None] * len(norm_g))):
+            if a != b:
+                return f'step {i + 1} is {a!r}; the documented semantics give {b!r} (full trace {norm_g!r})'
+    if go[0] != wo[0] or (go[0] == 'raise' and go[1] != wo[1]):
+        return f'ends with {go[:2]!r} instead of {wo[:2]!r}'
+    if go[0] == 'raise' and isinstance(wo[2], tuple):
+        kind, U = wo[2]
+        if not any(_mentions(a, U) for a in go[2]):
+            return f'the {go[1]} does not name the resolved location {U!r}: {go[2]!r}'
+        if kind == 'Included':
+            key = repr(U)
+            if not (len(go[2]) >= 5 and go[2][0] == Sym('perr', key) and go[2][1] == Sym('pline', key) and go[2][2] == Sym('pcol', key) and go[2][3] == Sym('plineno', key)):
+                return f'the re-raised parser error does not carry the original error / line / column / line number of the included text followed by a prefix: {go[2]!r}'
+            others = [a for a in go[2][4:]]
+            if any(_mentions(a, Sym('wrong')) for a in others):
+                return 'bad prefix'
+    if gc != wc:
+        return f'leaves statementCount = {gc}; {wc} statements were started'
+    return None
